@@ -26,19 +26,41 @@ LEVEL_TEXT = ('Table theorems proved by decide over data a translator regenerate
               'theorems (relabelled qubit by qubit under a deformation, C08; validity transfers). The model is tied to the '
               'Flask backend by differential runs through the test client: menus, per-type descriptions, and EVERY field of '
               'every description plus H / logicals / order of /code-data for every menu class x sizes x deformation x picture; '
-              'the statement-level oracle compares /code-data, /decode and /new-errors with direct library calls.')
+              'the statement-level oracle compares /code-data, /decode and /new-errors with direct library calls. '
+              'Library routes (Properties/C20Routes.lean): a Lean model of the glue of _instantiate_code, send_correction, '
+              'send_random_errors, send_decoder_names with the library (class constructors, deform, code.n, PauliErrorModel, decoder '
+              'constructors, decode, generate) as a parameter; proved for ANY library and menus: /decode constructs exactly the objects '
+              'the request names (class with (Lx, Ly) for 2-D - Lz ignored, present or not - or (Lx, Ly, Lz) for 3-D, deform iff the '
+              'deformation is not "None", direction and noise deformation with "None" -> None, decoder class, p, keyword arguments: '
+              'max_bp_iter for BP-OSD and MBP, osd_order=0 and channel_update for BP-OSD, alpha and beta for MBP, nothing else) in the '
+              'order code, error model, decoder, decode(syndrome), and answers the library correction split at code.n; /new-errors '
+              'answers the whole vector generate returned for the named error model and code; a request whose selection fails is never '
+              'answered; the answers depend on the listed request fields only. Regenerated tables (noise_directions, constructor '
+              'signatures of the menu decoders, request bodies and decoder-folder controls of main.js) by decide: every menu code x '
+              'decoder x error model request of the front end selects exactly the named objects; directions sum to 1; every field the '
+              'front end sends is read and every option control reaches exactly the decoders whose constructor has that parameter '
+              '(the repaired defect: channel_update was dropped; old glue kept with regression theorems). Tied to the backend by spies '
+              'on the code / error-model / decoder constructors and calls through the Flask test client (constructor arguments, call '
+              'order, returned JSON, exception kind of malformed requests) and by /new-errors end to end against the route model on top '
+              'of the lattice models and the C07 noise model with planted variates.')
 LEVEL_NOTE = ('trusted: Lean kernel + standard axioms; translator harness/regen_gui.py; the Flask/JSON layer is tested '
               '(compared field by field with the model), not modelled; floats the source computes with numpy (np.pi/4, '
               'np.sqrt(2)/2, z*1.4142, y+-0.9) are symbolic constants of the model, matched by exact float equality with the '
               'same Python operation in the harness; nothing specifies what a drawing should look like (the theorems are about '
               'completeness, order, location and the matrices, not about geometric correctness of normals and angles); error '
               'kinds are compared as "HTTP error" only; menu sizes beyond the bounded set (up to 12) are covered by the all-sizes '
-              'theorems on the model side and by the streams up to 6 (3-D) / 8 (2-D) in the thorough tier; /decode and '
-              '/new-errors are compared with library calls only; the JavaScript front-end is out of scope')
+              'theorems on the model side and by the streams up to 6 (3-D) / 8 (2-D) in the thorough tier; for /decode and '
+              '/new-errors the GLUE is modelled, the library behind it is a parameter: the decoders are not plugged into the route '
+              'model (their models belong to C05 / C10; the oracle compares the answer with the real library decoder), np.array(syndrome) '
+              'is part of the decode parameter (ragged lists not modelled), malformed sizes reach the class constructor and are outside '
+              'the model; of the JavaScript front end only the request bodies and the decoder-folder controls of main.js are read '
+              '(regex translator), the rest is out of scope')
 TECHNIQUE = ('Lean 4 proof by decide over tables regenerated from the source by a translator + generic lookup theorems + '
              'all-sizes theorems about a hand-written model of the representation methods and send_code_data; '
              'differential correspondence through the Flask test client (every field of /code-data)')
-TRUSTED = ['translator harness/regen_gui.py (AST-free: imports the module and reads the JSON; float literals as exact decimals)',
+TRUSTED = ['translator harness/regen_gui.py (AST-free: imports the module and reads the JSON; float literals as exact decimals; '
+           'noise directions as the small fraction whose float they are; constructor signatures by inspect; main.js request bodies by regex)',
+           'spies of the route streams (subclasses of the menu classes / PauliErrorModel recording their arguments, stand-in decoders)',
            'HTTP/JSON layer tested only',
            'float tags: a float of the answer is recognised by exact equality with the Python operation the source performs']
 ASSUMPTIONS = ['supported lattice families of DESIGN.md section 4; menu = _gui.codes/_gui.decoders + main.js (sizes 1..12, coprime L+1)']
